@@ -24,21 +24,38 @@ var envPkg = "github.com/glebziz/fs_db/internal/verifenv"
 
 func init() {
 	for lib, stub := range map[string]string{
-		"os.Create":           "OsCreate",
-		"os.Open":             "OsOpen",
-		"os.Remove":           "OsRemove",
-		"os.ReadDir":          "OsReadDir",
-		"os.MkdirAll":         "OsMkdirAll",
-		"os.LookupEnv":        "OsLookupEnv",
-		"(*os.File).Read":     "FileRead",
-		"(*os.File).Write":    "FileWrite",
-		"(*os.File).Close":    "FileClose",
-		"(*os.File).Seek":     "FileSeek",
-		"(*os.File).ReadFrom": "FileReadFrom",
-		"(*os.File).WriteTo":  "FileWriteTo",
-		"github.com/shirou/gopsutil/disk.UsageWithContext": "DiskUsage",
-		"gopkg.in/yaml.v2.NewDecoder":         "YamlNewDecoder",
-		"(*gopkg.in/yaml.v2.Decoder).Decode":  "YamlDecode",
+		"os.Create":               "OsCreate",
+		"os.Open":                 "OsOpen",
+		"os.Remove":               "OsRemove",
+		"os.OpenFile":             "OsOpenFile",
+		"os.Stat":                 "OsStat",
+		"os.Lstat":                "OsStat",
+		"os.ReadFile":             "OsReadFile",
+		"os.WriteFile":            "OsWriteFile",
+		"os.Mkdir":                "OsMkdir",
+		"os.RemoveAll":            "OsRemoveAll",
+		"os.Rename":               "OsRename",
+		"(*os.File).Stat":         "FileStat",
+		"(*os.File).Readdirnames": "FileReaddirnames",
+		"(*os.File).ReadDir":      "FileReadDir",
+		"(*os.File).Readdir":      "FileReaddir",
+		"(*os.File).Name":         "FileName",
+		"(*os.File).Sync":         "FileSync",
+		"(*os.File).WriteString":  "FileWriteString",
+		"(*os.File).Truncate":     "FileTruncate",
+		"(*os.File).ReadAt":       "FileReadAt",
+		"os.ReadDir":              "OsReadDir",
+		"os.MkdirAll":             "OsMkdirAll",
+		"os.LookupEnv":            "OsLookupEnv",
+		"(*os.File).Read":         "FileRead",
+		"(*os.File).Write":        "FileWrite",
+		"(*os.File).Close":        "FileClose",
+		"(*os.File).Seek":         "FileSeek",
+		"(*os.File).ReadFrom":     "FileReadFrom",
+		"(*os.File).WriteTo":      "FileWriteTo",
+		"github.com/shirou/gopsutil/disk.UsageWithContext":             "DiskUsage",
+		"gopkg.in/yaml.v2.NewDecoder":                                  "YamlNewDecoder",
+		"(*gopkg.in/yaml.v2.Decoder).Decode":                           "YamlDecode",
 		"github.com/dgraph-io/badger/v3.Open":                          "BadgerOpen",
 		"github.com/dgraph-io/badger/v3.DefaultOptions":                "BadgerDefaultOptions",
 		"(*github.com/dgraph-io/badger/v3.DB).Update":                  "DBUpdate",
@@ -56,13 +73,13 @@ func init() {
 		"(*github.com/dgraph-io/badger/v3.Iterator).Close":             "IterClose",
 		"(*github.com/dgraph-io/badger/v3.Item).Key":                   "ItemKey",
 		"(*github.com/dgraph-io/badger/v3.Item).Value":                 "ItemValue",
-		"google.golang.org/grpc/status.New":                                   "StatusNew",
-		"google.golang.org/grpc/status.Convert":                               "StatusConvert",
-		"(*google.golang.org/grpc/internal/status.Status).WithDetails":        "StatusWithDetails",
-		"(*google.golang.org/grpc/internal/status.Status).Details":            "StatusDetails",
-		"(*google.golang.org/grpc/internal/status.Status).Err":                "StatusErr",
-		"(*google.golang.org/grpc/internal/status.Status).Code":               "StatusCode",
-		"(*google.golang.org/grpc/internal/status.Status).Message":            "StatusMessage",
+		"google.golang.org/grpc/status.New":                            "StatusNew",
+		"google.golang.org/grpc/status.Convert":                        "StatusConvert",
+		"(*google.golang.org/grpc/internal/status.Status).WithDetails": "StatusWithDetails",
+		"(*google.golang.org/grpc/internal/status.Status).Details":     "StatusDetails",
+		"(*google.golang.org/grpc/internal/status.Status).Err":         "StatusErr",
+		"(*google.golang.org/grpc/internal/status.Status).Code":        "StatusCode",
+		"(*google.golang.org/grpc/internal/status.Status).Message":     "StatusMessage",
 	} {
 		redirects[lib] = envPkg + "." + stub
 	}
@@ -279,6 +296,10 @@ func init() {
 		m.maxPreempt = m.concreteInt(a[0], "preemption bound") + m.w.ex.cfg.ExtraPreempt
 		return nil, true
 	})
+	nd("SpawnRunsFirst", func(m *Machine, th *Thread, fn *ssa.Function, a []Value) (Value, bool) {
+		m.spawnFork = a[0].(*Term).IsTrue()
+		return nil, true
+	})
 	nd("Tier", func(m *Machine, th *Thread, fn *ssa.Function, a []Value) (Value, bool) {
 		return m.ts.Const(64, uint64(m.w.ex.cfg.TierN)), true
 	})
@@ -390,6 +411,9 @@ func init() {
 			s.symLen = nil
 		}
 		return s, true
+	})
+	nd("ScratchDir", func(m *Machine, th *Thread, fn *ssa.Function, a []Value) (Value, bool) {
+		return "verif_scratch", true
 	})
 	nd("FreshUUID", func(m *Machine, th *Thread, fn *ssa.Function, a []Value) (Value, bool) {
 		m.uuidCount++
@@ -548,6 +572,55 @@ func init() {
 		m.release(th, &st.vc)
 		return nil, true
 	}
+	// sync.Pool: an object that was Put is handed out again by the next Get (most recent first:
+	// the order that exposes a retained alias soonest); an empty pool calls New. Put happens
+	// before the Get that returns the object.
+	pl := func(m *Machine, c *Cell) *poolSt {
+		st := m.sync.pools[c]
+		if st == nil {
+			st = &poolSt{}
+			m.sync.pools[c] = st
+		}
+		return st
+	}
+	reg("(*sync.Pool).Put", func(m *Machine, th *Thread, fn *ssa.Function, a []Value) (Value, bool) {
+		if !m.schedGate(th, "Pool.Put") {
+			return nil, false
+		}
+		st := pl(m, a[0].(*Cell))
+		if iv, ok := a[1].(IfaceV); ok && iv.t == nil {
+			return nil, true // Put(nil) is a no-op
+		}
+		st.items = append(st.items, a[1])
+		m.release(th, &st.vc)
+		return nil, true
+	})
+	reg("(*sync.Pool).Get", func(m *Machine, th *Thread, fn *ssa.Function, a []Value) (Value, bool) {
+		if !m.schedGate(th, "Pool.Get") {
+			return nil, false
+		}
+		c := a[0].(*Cell)
+		st := pl(m, c)
+		if n := len(st.items); n > 0 {
+			v := st.items[n-1]
+			st.items = st.items[:n-1]
+			m.acquire(th, st.vc)
+			return v, true
+		}
+		// the New field
+		sv := c.v.(StructV)
+		stt := fn.Signature.Recv().Type().(*types.Pointer).Elem().Underlying().(*types.Struct)
+		for i := 0; i < stt.NumFields(); i++ {
+			if stt.Field(i).Name() == "New" {
+				nf := sv.f[i].v
+				if cl, ok := nf.(*Closure); nf == nil || (ok && cl == nil) {
+					return IfaceV{}, true
+				}
+				return m.callSync(th, nf, nil), true
+			}
+		}
+		return IfaceV{}, true
+	})
 	reg("(*sync.WaitGroup).Add", func(m *Machine, th *Thread, fn *ssa.Function, a []Value) (Value, bool) {
 		return wgAdd(m, th, a[0].(*Cell), int64(m.concreteInt(a[1], "WaitGroup delta")))
 	})
